@@ -66,8 +66,21 @@ def find_element_that_meets_mh(stack, metahandler):
     raise IndexError
 
 
+def ordered_stack_types(g: Grammar) -> list[type]:
+    """The grammar's mentioned symbols in an order that only depends on the grammar (the symbol
+    sets iterate in an address-dependent order, which differs from process to process)."""
+    roots: list[type] = list(g.alternatives.keys())
+    roots += [p for prods in g.alternatives.values() for p in prods]
+    roots += sorted(g.all_nodes, key=lambda t: (t.__module__, t.__qualname__))
+    ordered: dict[type, None] = {}
+    for root in roots:
+        for t in g.collect_types(root):
+            ordered.setdefault(t)
+    return list(ordered)
+
+
 def create_tree_using_stacks(g: Grammar, r: ListWrapper, failures_limit=100):
-    all_stack_types = g.get_all_mentioned_symbols()
+    all_stack_types = ordered_stack_types(g)
 
     stacks: dict[type, list[Any]] = {k: [] for k in all_stack_types}
 
